@@ -24,6 +24,9 @@ VOCAB = ["(", ")", "(", ")", "'", "#(", ".", "define", "lambda", "if", "set!", "
          "(1 . 2)", "(a . b)", "list-tail", "exact", "1e39", "floor", "sqrt", "append", "eqv?", "max"]
 
 
+TOK8 = ["(", ")", ".", "'", "#(", "a", "1", "\"s\""]
+
+
 def soup(rng, n):
     toks = [rng.choice(VOCAB) for _ in range(n)]
     if rng.random() < 0.5:
@@ -200,6 +203,13 @@ def run(rep, tier, rng):
     for L in range(1, maxlen + 1):
         for t in itertools.product(ALPHA20, repeat=L):
             texts.append(("short", "".join(t)))
+    # every sequence of at most 5 (thorough: 6) TOKENS over the structural token alphabet, blank-separated: the reader's list, dot,
+    # quote and vector handling on every small arrangement of brackets, dots and data (the character-level family above reaches
+    # only arrangements that fit into four characters)
+    toklen = 5 if tier == "quick" else 6
+    for L in range(1, toklen + 1):
+        for t in itertools.product(TOK8, repeat=L):
+            texts.append(("short-tokens", " ".join(t)))
     n_soup = 3000 if tier == "quick" else 80000
     for _ in range(n_soup):
         texts.append(("soup", soup(rng, rng.randrange(1, 25))))
@@ -263,7 +273,7 @@ def run(rep, tier, rng):
             rep.count()
             ca = classify(a[k])
             dist[(kind, ca.split(" ")[0] if ca.startswith("E") else ca)] = dist.get((kind, ca.split(" ")[0] if ca.startswith("E") else ca), 0) + 1
-            if ca != "value" or kind != "short":
+            if ca != "value" or kind not in ("short", "short-tokens"):
                 rep.nontrivial((kind, text))
             if ca == "P":
                 rep.violation({"what": "the interpreter panicked", "text": text, "class": kind, "implementation": a[k]})
@@ -323,13 +333,15 @@ def run(rep, tier, rng):
         elif [classify(x) for x in a] != [classify(x) for x in b]:
             rep.violation({"broken": "correspondence eval_file model <-> implementation", "file_bytes_hex": f[1], "implementation": a, "model": b}, no_input=True)
     rep.extra["distribution"] = {"%s/%s" % k: v for k, v in sorted(dist.items())}
-    rep.extra["exhaustive_strings"] = {"alphabet": "".join(ALPHA20).replace("\n", "\\n"), "max_length": maxlen}
+    rep.extra["exhaustive_strings"] = {"alphabet": "".join(ALPHA20).replace("\n", "\\n"), "max_length": maxlen,
+                                       "token_alphabet": TOK8, "max_tokens": toklen}
 
 
 def main(tier, seed):
     rep = C.Report(PROP, tier, seed)
     rng = random.Random(seed)
-    rep.cov["rule"] = ("every string of length 1-4 over a 20-character structural alphabet (exhaustive), random token soup over a "
+    rep.cov["rule"] = ("every string of length 1-4 over a 20-character structural alphabet (exhaustive), every blank-separated sequence of 1-5 "
+                       "(thorough 6) tokens over ( ) . ' #( a 1 \"s\" (exhaustive), random token soup over a "
                        "100-token vocabulary (half with balanced parentheses), token-level mutations of generated programs and of the "
                        "bundled grammar.sld/base.sld, random Unicode/control strings, ill-formed program files; each followed by a "
                        "sanity form on the same interpreter; distinct non-trivial = inputs that are not a plain value of the "
